@@ -110,7 +110,7 @@ PLAN['C18'] = {
               'c18.class.holes', 'c18.class.stretched_obtuse', 'c18.class.isolated_points'],
     'assumptions': ['meshes are conforming triangulations with <= 20 neighbours per node and min angle >= 1 degree',
                     'node area tolerance 1e-9 x sum of |cotangent terms| (conditioning), area sum tolerance 1e-10 relative'],
-    'quick': lambda seed: runs('h_grid', ['trimesh'], 'asan', 8, 250),
+    'quick': lambda seed: runs('h_grid', ['trimesh'], 'asan', 8, 1500),
     'thorough': lambda seed: runs('h_grid', ['trimesh'], 'asan', 16, 6000),
 }
 
@@ -254,7 +254,7 @@ PLAN['C09'] = {
               'c09.event.set_mask', 'c09.event.basin_method', 'c09.event.route_method', 'c09.event.slope_exp'],
     'assumptions': ['donors are compared as sorted multisets (their storage order is not part of the statement); everything '
                     'else bit for bit', 'masked base levels are not generated'],
-    'quick': lambda seed: runs('h_hist', FLOW6, 'asan', 2, 300),
+    'quick': lambda seed: runs('h_hist', FLOW6, 'asan', 2, 900),
     'thorough': lambda seed: runs('h_hist', FLOW6, 'asan', 3, 4000),
 }
 
@@ -271,7 +271,7 @@ PLAN['C16'] = {
               'c16.single_flow_snapshots', 'c16.multi_flow_snapshots'],
     'assumptions': ['a prefix without a router (e.g. [pflood]) is completed with a single router, which does not edit elevation; '
                     'only the elevation is compared then'],
-    'quick': lambda seed: runs('h_hist', FLOW6, 'asan', 2, 500),
+    'quick': lambda seed: runs('h_hist', FLOW6, 'asan', 2, 1200),
     'thorough': lambda seed: runs('h_hist', FLOW6, 'asan', 3, 8000),
 }
 
@@ -308,7 +308,7 @@ PLAN['C12'] = {
               'c12.snapshot_rejection_checks', 'spl.graph.multi',
               'spl.graph.single', 'spl.elevation.unfilled', 'spl.slope_exp.below_one', 'spl.slope_exp.above_one'],
     'assumptions': ['parameter products finite (<= 1e250)', 'Newton tolerance >= 1e-6 with |z| <= 1e5 for n != 1'],
-    'quick': lambda seed: runs('h_erode', FLOW6, 'asan', 2, 2500),
+    'quick': lambda seed: runs('h_erode', FLOW6, 'asan', 2, 10000),
     'thorough': lambda seed: runs('h_erode', FLOW6, 'asan', 3, 12000),
 }
 
@@ -323,7 +323,7 @@ PLAN['C13'] = {
               'c13.eroded_nodes_checked', 'spl.graph.multi', 'spl.elevation.unfilled', 'spl.param_change.slope_exp'],
     'assumptions': ['limited nodes are identified by the SPL verification hook (verif_corrected_nodes)',
                     'nodes whose drop rounds to <= 0 with n <= 1 are skipped and counted (infinite sensitivity)'],
-    'quick': lambda seed: runs('h_erode', FLOW6, 'asan', 2, 2500),
+    'quick': lambda seed: runs('h_erode', FLOW6, 'asan', 2, 10000),
     'thorough': lambda seed: runs('h_erode', FLOW6, 'asan', 3, 12000),
 }
 
@@ -340,7 +340,7 @@ PLAN['C14'] = {
               'c14.same_dt_as_previous_step', 'c14.status_independence_checks', 'c14.scalar_vs_uniform_array_checks',
               'c14.linearity_checks', 'c14.k.array_small_relative_variation', 'c14.k_given_as_float_array'],
     'assumptions': ['rounding of the explicit part of a half step is amplified by (1 + 4 dt f): the tolerance grows with stiffness'],
-    'quick': lambda seed: runs('h_erode', RASTER4, 'asan', 3, 1200),
+    'quick': lambda seed: runs('h_erode', RASTER4, 'asan', 3, 6000),
     'thorough': lambda seed: runs('h_erode', RASTER4, 'asan', 4, 15000),
 }
 
